@@ -1,4 +1,5 @@
 import Verif.Generated.FactsOK.Common
+import Verif.Generated.FactsOK.Flatten
 import Verif.Properties.C10
 
 namespace Generated
